@@ -29,7 +29,7 @@ from .explore import digest
 ENV: Any = None  # the world of the execution that is currently running
 
 NONFINAL = ('cont', 'cont_a', 'wait', 'wait_d')
-FINAL = ('ret', 'ret_none', 'unsucc', 'stop_t', 'stop_f', 'killcmd', 'raise')
+FINAL = ('ret', 'ret_none', 'unsucc', 'stop_t', 'stop_f', 'killcmd', 'killcmd0', 'raise')
 
 CONT_ARGS = (1, 'x')
 CONT_KWARGS = {'k': 2}
@@ -124,6 +124,8 @@ def _terminate(self: Any, idx: int, term: Any, last: bool) -> Any:
         return process_states.Stop(STOP_VALUE, False)
     if term == 'killcmd':
         return process_states.Kill(plumpy.MessageBuilder.kill(KILLCMD_TEXT))
+    if term == 'killcmd0':
+        return process_states.Kill()  # the kill command without a message
     if term == 'raise':
         exc = StepError(f'step-{idx}')
         ENV.raised.append(exc)
